@@ -234,14 +234,17 @@ func (s *Summary) write(path string) {
 }
 
 type replayFile struct {
-	Engine   string          `json:"engine"`
-	Property string          `json:"property"`
-	Class    string          `json:"class"`
-	Detail   string          `json:"detail"`
-	Seed     int64           `json:"seed"`
-	Batch    int             `json:"batch"`
-	Race     bool            `json:"race,omitempty"`
-	Case     json.RawMessage `json:"case"`
+	Engine   string `json:"engine"`
+	Property string `json:"property"`
+	Class    string `json:"class"`
+	Detail   string `json:"detail"`
+	Seed     int64  `json:"seed"`
+	Batch    int    `json:"batch"`
+	Race     bool   `json:"race,omitempty"`
+	// Repeat > 1: the violation needs process-wide state that the case itself builds up; the replay executes the case
+	// up to Repeat times in the one fresh process and reports the first repetition that fails.
+	Repeat int             `json:"repeat,omitempty"`
+	Case   json.RawMessage `json:"case"`
 }
 
 var slugRe = regexp.MustCompile(`[^A-Za-z0-9_.-]+`)
@@ -317,19 +320,29 @@ func RunWorker(t *testing.T, race bool) {
 			fmt.Println("bad replay file:", err)
 			os.Exit(2)
 		}
-		c := e.New()
-		if err := json.Unmarshal(rf.Case, c); err != nil {
-			fmt.Println("bad case in replay file:", err)
-			os.Exit(2)
-		}
+		var c any
 		o := &Outcome{}
-		if race {
-			ok := t.Run("replay", func(t *testing.T) { e.Exec(t, c, o) })
-			if !ok {
-				fmt.Printf("REPLAY-VIOLATION class=%s\n", "race")
+		for rep := 0; rep < rf.Repeat || rep == 0; rep++ {
+			c = e.New()
+			if err := json.Unmarshal(rf.Case, c); err != nil {
+				fmt.Println("bad case in replay file:", err)
+				os.Exit(2)
 			}
-		} else {
-			e.Exec(t, c, o)
+			o = &Outcome{}
+			if race {
+				ok := t.Run("replay", func(t *testing.T) { e.Exec(t, c, o) })
+				if !ok {
+					fmt.Printf("REPLAY-VIOLATION class=%s\n", "race")
+				}
+			} else {
+				e.Exec(t, c, o)
+			}
+			if len(o.Viols) > 0 {
+				if rf.Repeat > 1 {
+					fmt.Printf("REPLAY-REPETITION %d of %d\n", rep+1, rf.Repeat)
+				}
+				break
+			}
 		}
 		for _, v := range o.Viols {
 			fmt.Printf("REPLAY-VIOLATION class=%s\n  %s\n", v.Class, strings.ReplaceAll(v.Detail, "\n", "\n  "))
